@@ -378,6 +378,9 @@ class PrimalDualHybridGradient(Alg):
 
     def _update(self):
         # Update dual.
+        with self.u_device:
+            u_old = self.u.copy()
+
         util.axpy(self.u, self.sigma, self.A(self.x_ext))
         backend.copyto(self.u, self.proxfc(self.sigma, self.u))
 
@@ -413,8 +416,21 @@ class PrimalDualHybridGradient(Alg):
         with self.x_device:
             xp = self.x_device.xp
             x_diff = self.x - x_old
-            self.resid = xp.linalg.norm(x_diff / self.tau**0.5).item()
-            backend.copyto(self.x_ext, self.x + theta * x_diff)
+            x_ext = self.x + theta * x_diff
+            # The state is (x, u, x_ext): the residual measures the change
+            # of all of it, so it vanishes only at a fixed point.
+            resid_x = xp.linalg.norm(x_diff / self.tau**0.5).item()
+            resid_ext = xp.linalg.norm(
+                (x_ext - self.x_ext) / self.tau**0.5
+            ).item()
+            backend.copyto(self.x_ext, x_ext)
+
+        with self.u_device:
+            xp = self.u_device.xp
+            u_diff = self.u - u_old
+            resid_u = xp.linalg.norm(u_diff / self.sigma**0.5).item()
+
+        self.resid = (resid_x**2 + resid_u**2 + resid_ext**2) ** 0.5
 
     def _done(self):
         return (self.iter >= self.max_iter) or (self.resid <= self.tol)
